@@ -56,13 +56,15 @@ type subProcess struct {
 	mch                    chan imessage
 }
 
-func newSubProcess(eventBuilder event.IDefinitionInstanceBuilder, idGenerator id.IGenerator, subProcessElement *schema.SubProcess) constructor {
+func newSubProcess(parentCtx context.Context, eventBuilder event.IDefinitionInstanceBuilder, idGenerator id.IGenerator, subProcessElement *schema.SubProcess) constructor {
 	return func(parentWiring *wiring) (act Activity, err error) {
 
 		flowNodeMapping := NewLockedFlowNodeMapping()
 		defer flowNodeMapping.Finalize()
 
-		ctx, cancel := context.WithCancel(context.Background())
+		// derived from the instance context, so that the sub-process tracer also stops
+		// when the instance is cancelled before the sub-process was ever entered
+		ctx, cancel := context.WithCancel(parentCtx)
 		subTracer := tracing.NewTracer(ctx)
 		process := &subProcess{
 			wr:                     parentWiring,
@@ -335,7 +337,7 @@ func newSubProcess(eventBuilder event.IDefinitionInstanceBuilder, idGenerator id
 				return
 			}
 			var node *harness
-			sp := newSubProcess(eventBuilder, idGenerator, element)
+			sp := newSubProcess(ctx, eventBuilder, idGenerator, element)
 			node, err = newHarness(wr, idGenerator, sp)
 			if err != nil {
 				return
